@@ -9,6 +9,7 @@ package avs
 // (guard obligations: what must hold whenever the keeper call is reached)
 
 //@ func (Precompile).RegisterAVS
+//@   names ctx, origin, contract, stateDB, method, args
 //@   requires contract != nil
 //@   modifies state(ctx)
 //@   flag havoc=GetAVSParamsFromInputs,UpdateAVSInfo
@@ -16,12 +17,14 @@ package avs
 //@   before[C10.pavs.register.owner] UpdateAVSInfo requires contains(arg_params.AvsOwnerAddress, arg_params.CallerAddress)
 
 //@ func (Precompile).DeregisterAVS
+//@   names ctx, origin, contract, stateDB, method, args
 //@   requires contract != nil
 //@   modifies state(ctx)
 //@   flag havoc=UpdateAVSInfo
 //@   before[C10.pavs.deregister.bind] UpdateAVSInfo requires arg_params.AvsAddress == ethaddrstr(old(contract.CallerAddress))
 
 //@ func (Precompile).UpdateAVS
+//@   names ctx, origin, contract, stateDB, method, args
 //@   requires contract != nil
 //@   modifies state(ctx)
 //@   flag havoc=GetAVSParamsFromUpdateInputs,UpdateAVSInfo
@@ -30,18 +33,21 @@ package avs
 //@        contains(avsInfoOf(ctx, arg_params.AvsAddress).AvsOwnerAddress, arg_params.CallerAddress)
 
 //@ func (Precompile).BindOperatorToAVS
+//@   names ctx, origin, contract, stateDB, method, args
 //@   requires contract != nil
 //@   modifies state(ctx)
 //@   flag havoc=OperatorOptAction
 //@   before[C10.pavs.bind.bind] OperatorOptAction requires arg_params.AvsAddress == ethaddrstr(old(contract.CallerAddress))
 
 //@ func (Precompile).UnbindOperatorToAVS
+//@   names ctx, origin, contract, stateDB, method, args
 //@   requires contract != nil
 //@   modifies state(ctx)
 //@   flag havoc=OperatorOptAction
 //@   before[C10.pavs.unbind.bind] OperatorOptAction requires arg_params.AvsAddress == ethaddrstr(old(contract.CallerAddress))
 
 //@ func (Precompile).CreateAVSTask
+//@   names ctx, origin, contract, stateDB, method, args
 //@   requires contract != nil
 //@   modifies state(ctx)
 //@   flag havoc=GetTaskParamsFromInputs,Keeper).CreateAVSTask
